@@ -42,6 +42,8 @@ mod table_manager;
 
 #[macro_use]
 mod common;
+mod cgen;
+mod model;
 mod props;
 
 use common::{Run, Tier};
@@ -51,6 +53,7 @@ type ReplayFn = fn(&str, &serde_json::Value) -> Result<common::CheckResult, Stri
 
 fn registry(id: &str) -> Option<(&'static str, RunFn, ReplayFn)> {
     Some(match id {
+        "C02" => ("C02", props::c02::run, props::c02::replay),
         "C12" => ("C12", props::c12::run, props::c12::replay),
         _ => return None,
     })
